@@ -59,5 +59,17 @@ CLAIMED["C07"] = {
              "not modelled; NaN excluded (known finding C07-F3); min/max (written in the language) are decided by correspondence only."),
     "technique": "Coq proof over a hand Gallina model of the value order and of sorted + vm_compute correspondence",
 }
+CLAIMED["C19"] = {
+    "text": ("Theorems in coq/Props/C19.v about specification functions (textbook definitions; the 32-bit natives statement by statement): union/"
+             "intersection/diff/symmetric_diff are the set-theoretic operations up to == with duplicate-free results; unique keeps first occurrences "
+             "in order; reverse is an involution; zip/range/interval/chunks/pairs/grouped structural laws; sum, min, max, median_low, median_high are "
+             "permutation invariant on ints (uniqueness of sorted permutations); gcd = Z.gcd, lcm = Z.lcm, sign = Z.sgn on all of Z; bit_not, shifts "
+             "and rotates equal the 32-bit operations (Z.testbit characterisation) for every word and every shift count; and/or/xor are bitwise. All "
+             "for lists/ints of any size. The library (natives + modules written in the language) is tied to the specification functions by a "
+             "vm_compute correspondence on generated inputs (partial: the library code itself is not the object of the theorems)."),
+    "note": ("Coq kernel + vm_compute; specification-level model tied by sampling; decimal mean/median values are checked numerically against "
+             "Python's statistics module; float summation order dependence is a recorded finding (C19-F5)."),
+    "technique": "Coq proof over Gallina specification functions + vm_compute correspondence against the library",
+}
 
 NOT_APPLICABLE = {}
